@@ -1,6 +1,7 @@
 import XPathV.Lemmas.FlatOrder
 import XPathV.Model.Api
 import XPathV.Lemmas.Facts
+import XPathV.Lemmas.PosSem
 /-!
 # C03 — positional predicates on child steps use the XPath proximity position
 -/
@@ -56,5 +57,103 @@ theorem nth_child {d : Doc} (wf : WF d) (cfg : ECfg) (a : AxisInfo) (lex : Strin
       (sel (F := F) d cfg (.filter (.child a .context) (.constNum lex)) c).map (fun l => l.map (·.r)) = .ok keep ∧
       keep = ((childCands d cfg a c)[n - 1]?).toList :=
   XPathV.nth_child_agrees wf cfg a lex c n hn1 hn hx
+
+open XPathV.PathSem XPathV.PredSem XPathV.PosSem in
+/-- **C03 (main theorem, through the builder)**: for every input path `q` of the C02 fragment, the
+step `child::a` and a positional first predicate `f` — `[n]`, `[position() op n]`,
+`[position() = last()]`, `[last()]`, `[last() - n]` — the plan the builder makes of `q/child::a[f]`
+(plain filter or merge rewrite) selects exactly the oracle's node set, and these are the candidates
+`x` of an input node `p` whose 1-based position among the candidates of `p` satisfies the predicate.
+`hag` is the only numeric hypothesis (the engine's and the oracle's number comparisons agree on
+positions and sizes up to `d.length`); it holds unconditionally for `[position() op n]` and
+`[position() = last()]` (`agree_posCmp`, `agree_posEqLast`) and follows from `NumOK` otherwise. -/
+theorem C03_main {d : Doc} (wf : WF d) (cfg : ECfg) (hns : cfg.nsIface = true) (hinj : HashInj d cfg)
+    (regexOk : RegexOk) (limit : Nat) (a : AxisInfo) (ha : a.axis = "child") (q : Ast) (hq : Frag true q)
+    (f : PosForm) (hag : f.Agree F d.length) (st : BState) (o : BOut)
+    (hb : build regexOk limit true false (.filter (.axis a q) f.ast) {} st = .ok o)
+    (c : Ref) (hc : validRef d c = true) :
+    ∃ out ns g origins g0, sel (F := F) d cfg o.q c = .ok out ∧
+      Spec.eval (F := F) d (.filter (.axis a q) f.ast) ⟨c, 1, 1⟩ = .ok (.val (.nodes ns) g) ∧
+      Spec.eval (F := F) d q ⟨c, 1, 1⟩ = .ok (.val (.nodes origins) g0) ∧
+      (∀ x, x ∈ refs out ↔ x ∈ ns) ∧
+      (∀ x, x ∈ ns ↔ ∃ p ∈ origins, ∃ k, (childCands d cfg a p)[k]? = some x ∧
+        PosForm.specKeep F f (k + 1) (childCands d cfg a p).length = true) :=
+  PosSem.C03_main wf cfg hns hinj regexOk limit a ha q hq f hag st o hb c hc
+
+open XPathV.PathSem XPathV.PredSem XPathV.PosSem in
+/-- **C03 on natural numbers**: under `NumOK` (the literal denotes `n`; naturals up to `d.length`
+are embedded faithfully in the number algebra) the nodes returned are the candidates whose position
+`k` satisfies `k = n` / `k op n` / `k = size` / `k + n = size`, `size` = number of candidates of the
+same parent -/
+theorem C03_on_naturals {d : Doc} (wf : WF d) (cfg : ECfg) (hns : cfg.nsIface = true) (hinj : HashInj d cfg)
+    (regexOk : RegexOk) (limit : Nat) (a : AxisInfo) (ha : a.axis = "child") (q : Ast) (hq : Frag true q)
+    (f : PosForm) (n : Nat) (hnum : f.NumOK F n d.length) (st : BState) (o : BOut)
+    (hb : build regexOk limit true false (.filter (.axis a q) f.ast) {} st = .ok o)
+    (c : Ref) (hc : validRef d c = true) :
+    ∃ out ns g origins g0, sel (F := F) d cfg o.q c = .ok out ∧
+      Spec.eval (F := F) d (.filter (.axis a q) f.ast) ⟨c, 1, 1⟩ = .ok (.val (.nodes ns) g) ∧
+      Spec.eval (F := F) d q ⟨c, 1, 1⟩ = .ok (.val (.nodes origins) g0) ∧
+      (∀ x, x ∈ refs out ↔ x ∈ ns) ∧
+      (∀ x, x ∈ ns ↔ ∃ p ∈ origins, ∃ k, (childCands d cfg a p)[k]? = some x ∧
+        f.natKeep n (k + 1) (childCands d cfg a p).length = true) :=
+  PosSem.C03_main_nat wf cfg hns hinj regexOk limit a ha q hq f n hnum st o hb c hc
+
+open XPathV.PathSem XPathV.PredSem XPathV.PosSem in
+/-- **followed by boolean predicates** `q/child::a[f][b1]…[bk]`: per input node, the candidates
+whose proximity position satisfies `f` and on which every `bi` holds; the oracle agrees -/
+theorem C03_then_boolean_predicates {d : Doc} (wf : WF d) (cfg : ECfg) (hns : cfg.nsIface = true)
+    (hinj : HashInj d cfg) (regexOk : RegexOk) (limit : Nat) (a : AxisInfo) (ha : a.axis = "child")
+    (q : Ast) (hq : Frag true q) (f : PosForm) (hag : f.Agree F d.length) (bs : List Ast)
+    (hbs : ∀ b ∈ bs, Frag false b) (st : BState) (o : BOut)
+    (hb : build regexOk limit true false (stackAst (.filter (.axis a q) f.ast) bs) {} st = .ok o) :
+    ∃ qi, ∀ c, validRef d c = true → PosChainOK F d cfg a f bs o.q qi q ⟨c, 1, 1⟩ :=
+  PosSem.C03_chain wf cfg hns hinj regexOk limit a ha q hq f hag bs hbs st o hb
+
+open XPathV.PathSem XPathV.PredSem XPathV.PosSem in
+/-- with a flat input path the *sequence* of the built plan is the oracle's document-ordered list -/
+theorem C03_flat_input_exact {d : Doc} (wf : WF d) (cfg : ECfg) (hns : cfg.nsIface = true)
+    (hinj : HashInj d cfg) (regexOk : RegexOk) (limit : Nat) (a : AxisInfo) (ha : a.axis = "child") (q : Ast)
+    (hq : q = .none ∨ ArithSem.FlatPath q) (f : PosForm) (hag : f.Agree F d.length) (st : BState) (o : BOut)
+    (hb : build regexOk limit true false (.filter (.axis a q) f.ast) {} st = .ok o)
+    (c : Ref) (hc : validRef d c = true) :
+    ∃ out ns g, sel (F := F) d cfg o.q c = .ok out ∧
+      Spec.eval (F := F) d (.filter (.axis a q) f.ast) ⟨c, 1, 1⟩ = .ok (.val (.nodes ns) g) ∧
+      refs out = ns :=
+  PosSem.C03_main_exact wf cfg hns hinj regexOk limit a ha q hq f hag st o hb c hc
+
+open XPathV.PathSem XPathV.PredSem XPathV.PosSem in
+/-- **`(P)[n]` for a flat path `P`, through the builder**: exactly the `n`-th node of `P` in
+document order, on both sides -/
+theorem C03_parenthesised_nth {d : Doc} (wf : WF d) (cfg : ECfg) (hns : cfg.nsIface = true)
+    (hinj : HashInj d cfg) (regexOk : RegexOk) (limit : Nat) (sdf : Bool) (pa : Ast)
+    (hp : ArithSem.FlatPath pa) (lex : String) (n N : Nat) (hn : 1 ≤ n) (hlit : LitIsNat F lex n N)
+    (st : BState) (o : BOut)
+    (hb : build regexOk limit true sdf (.filter (.group pa) (.num lex)) {} st = .ok o)
+    (c : Ref) (hc : validRef d c = true) :
+    ∃ out ns g, sel (F := F) d cfg o.q c = .ok out ∧
+      Spec.eval (F := F) d pa ⟨c, 1, 1⟩ = .ok (.val (.nodes ns) g) ∧
+      (ns.length ≤ N →
+        refs out = (ns[n - 1]?).toList ∧
+        Spec.eval (F := F) d (.filter (.group pa) (.num lex)) ⟨c, 1, 1⟩ =
+          .ok (.val (.nodes (ns[n - 1]?).toList) none)) :=
+  paren_flat_nth wf cfg hns hinj regexOk limit sdf pa hp lex n N hn hlit st o hb c hc
+
+open XPathV.PosSem in
+/-- `position()` and `last()` as the engine computes them on a child step are the proximity
+position and the context size -/
+theorem C03_position_last {d : Doc} (wf : WF d) (cfg : ECfg) (a : AxisInfo) (fi : Plan)
+    (hfi : planTest d cfg fi = nodeTestM d cfg a) (p x : Ref) (k : Nat)
+    (h : (childCands d cfg a p)[k]? = some x) :
+    positionM d cfg fi x = k + 1 ∧
+    positionM d cfg fi x = 1 + (((childCands d cfg a p).take k).length) ∧
+    lastM d cfg fi x = (childCands d cfg a p).length :=
+  position_is_proximity wf cfg a fi hfi p x k h
+
+open XPathV.PosSem in
+/-- the numeric side conditions are satisfiable: an exact-integer number algebra meets them for
+every form with the literal `2` and every bound -/
+theorem C03_side_conditions_satisfiable (f : PosForm) (hf : ∀ lex, (f = .lit lex ∨ (∃ cop pfx, f = .posCmp cop pfx lex) ∨
+    ∃ pfx, f = .lastMinus pfx lex) → lex = "2") (N : Nat) : @PosForm.NumOK Int toyAlg f 2 N :=
+  @toy_numOK f hf N
 
 end XPathV.Theorems.C03
